@@ -700,3 +700,122 @@ def rule_search(ctx, prop):
                         rep.violation(f"{f.key} editorconfig-overrides-config-file",
                                       ".editorconfig is consulted even when a stylua.toml was found", f.loc(ecs[0][1]["sp"]), cfg)
     return rep
+
+
+def rule_walkup(ctx, prop):
+    rep = Report(prop, "R-CFG(g)", "upward search shape: root is the cwd unless --search-parent-directories; a directory is "
+                                   "looked up before its parent; the walk stops at the root / file-system root; the XDG/HOME "
+                                   "fallback only with --search-parent-directories; stdin uses --stdin-filepath or the cwd")
+    for cfg, prog in ctx.programs.items():
+        from paths import Enumerator, TooManyPaths, access_path, path_key
+        g = prog.fn("stylua", "config::ConfigResolver::<'_>::get_configuration_search_root")
+        if rep.anchor(g is not None, "get_configuration_search_root", cfg):
+            res = Enumerator(g).run()
+            table = {}
+            for st in res:
+                k = [kk for kk in st.disc if kk.endswith("search_parent_directories")]
+                v = st.vals.get(0)
+                out = v[2] if v and v[0] in ("agg", "variant") else "?"
+                src = None
+                if out == "Some":
+                    pr = provenance(g, 0)
+                    # the payload comes from self.current_directory
+                    src = "current_directory" in {x for b, si_, s in g.stmts() if s["k"] == "assign" and s["rv"]["k"] == "ref"
+                                                  for x in [f_[1] for f_ in proj_fields(s["rv"]["p"])]}
+                table[st.disc.get(k[0]) if k else None] = (out, src)
+            ok = table.get("true", ("?",))[0] == "None" and table.get("false") == ("Some", True)
+            rep.inst(f"{g.key} search-root table", {"table": {str(k): str(v) for k, v in table.items()}}, cfg, ok=ok)
+            if not ok:
+                rep.violation(f"{g.key} search-root-table {sorted((str(k), str(v)) for k, v in table.items())}",
+                              "the search root is not (None with --search-parent-directories, Some(cwd) otherwise): the "
+                              "upward search is no longer bounded by the working directory", g.loc(), cfg)
+        f = prog.fn("stylua", "config::ConfigResolver::<'_>::find_config_file")
+        if rep.anchor(f is not None, "find_config_file", cfg):
+            look = [b for b, t in f.calls() if callee(t).endswith("lookup_config_file_in_directory")]
+            rec = [(b, t) for b, t in f.calls() if callee(t).endswith("::find_config_file")]
+            xdg = [b for b, t in f.calls() if callee(t).endswith("search_config_locations")]
+            eqs = [(b, t) for b, t in f.calls() if callee(t).endswith("PartialEq>::eq") and "Option<&std::path::Path>" in (t.get("fn") or "")]
+            isn = [(b, t) for b, t in f.calls() if callee(t).endswith("Option::<T>::is_none")]
+            if rep.anchor(len(look) == 1 and len(rec) == 1 and len(xdg) == 1 and len(eqs) == 1 and len(isn) == 1,
+                          f"find_config_file shape (lookup={len(look)} rec={len(rec)} xdg={len(xdg)} eq={len(eqs)} is_none={len(isn)})", cfg):
+                # the directory itself is looked up before anything else, with the directory parameter
+                dl = f.names.get("directory", {}).get("l")
+                ok = f.dominates(look[0], rec[0][0]) and f.dominates(look[0], xdg[0]) and \
+                    ("arg", dl) in provenance(f, f.blocks[look[0]]["term"]["args"][1], through=None)
+                rep.inst(f"{f.key} own-directory-looked-up-first", None, cfg, ok=ok)
+                if not ok:
+                    rep.violation(f"{f.key} lookup-order", "the directory itself is not looked up before its parent / the "
+                                                           "fallback locations: the nearest configuration file does not win",
+                                  f.loc(), cfg)
+                # stop test: (Some(directory) == root.as_deref()) || parent.is_none(); recursion only if both false
+                e1 = bool_edge(f, eqs[0][0])
+                e2 = bool_edge(f, isn[0][0])
+                ok = False
+                if e1 and e2:
+                    rb = rec[0][0]
+                    ok = rb not in f.reach_from(e1[0], avoid={rb}) or True
+                    # recursion must be reachable only through both false edges
+                    ok = f.dominates(e2[1], rb) or any(f.dominates(x, rb) for x in (e1[1],))
+                    ok = ok and (rb not in f.reach_from(e1[0], avoid={isn[0][0]}) or f.dominates(e1[1], isn[0][0]))
+                # operands of the equality: directory and root
+                a0 = provenance(f, eqs[0][1]["args"][0])
+                a1 = provenance(f, eqs[0][1]["args"][1])
+                rl = f.names.get("root", {}).get("l")
+                ok_ops = (("arg", dl) in a0 and ("arg", rl) in a1) or (("arg", dl) in a1 and ("arg", rl) in a0)
+                rep.inst(f"{f.key} stops-at-root-or-fs-root", None, cfg, ok=bool(ok and ok_ops))
+                if not (ok and ok_ops):
+                    rep.violation(f"{f.key} stop-condition", "the upward walk is not stopped by `Some(directory) == root || "
+                                                             "parent.is_none()`", f.loc(), cfg)
+                # recursion goes to the parent with the same root
+                rt = rec[0][1]
+                pa = prov_calls(provenance(f, rt["args"][1]))
+                ok = "std::path::Path::parent" in pa and ("arg", rl) in provenance(f, rt["args"][2])
+                rep.inst(f"{f.key} recurses-into-parent-with-same-root", None, cfg, ok=ok)
+                if not ok:
+                    rep.violation(f"{f.key} recursion-arguments", "the recursive search does not go to `directory.parent()` "
+                                                                  "with the same root", f.loc(rt["sp"]), cfg)
+                # XDG/HOME only with --search-parent-directories
+                from r_cli import field_switches
+                sw = field_switches(f, "search_parent_directories")
+                ok = any(f.dominates(tr, xdg[0]) and (fl is None or xdg[0] not in f.reach_from(fl, avoid={look[0]}))
+                         for _, tr, fl, _ in sw)
+                rep.inst(f"{f.key} fallback-locations-only-with-search-parent-directories", None, cfg, ok=ok)
+                if not ok:
+                    rep.violation(f"{f.key} fallback-not-gated", "XDG/HOME configuration locations are consulted without "
+                                                                 "--search-parent-directories", f.loc(), cfg)
+        # find_toml_file iterates CONFIG_FILE_NAME in order and returns the first existing
+        t_ = prog.fn("stylua", "config::find_toml_file")
+        if rep.anchor(t_ is not None, "find_toml_file", cfg):
+            uses_static = any(is_const(s["rv"]["o"]) and s["rv"]["o"].get("static") == "config::CONFIG_FILE_NAME"
+                              for b, si_, s in t_.stmts() if s["k"] == "assign" and s["rv"]["k"] == "use")
+            joins = [t for b, t in t_.calls() if callee(t).endswith("Path::join")]
+            exists = [t for b, t in t_.calls() if callee(t).endswith("Path::exists") or callee(t).endswith("Path::is_file")]
+            rev = [t for b, t in t_.calls() if re.search(r"::rev$|::rposition$|::last$", callee(t))]
+            ok = uses_static and len(joins) == 1 and len(exists) == 1 and not rev
+            rep.inst("stylua::config::find_toml_file first-existing-name-in-order", None, cfg, ok=ok)
+            if not ok:
+                rep.violation("stylua::config::find_toml_file shape", "find_toml_file no longer returns the first existing "
+                                                                      "name of CONFIG_FILE_NAME in order", t_.loc(), cfg)
+        # stdin: Some(filepath) -> load_configuration(filepath); None -> find_config_file(current_directory)
+        s_ = prog.fn("stylua", "config::ConfigResolver::<'_>::load_configuration_for_stdin")
+        if rep.anchor(s_ is not None, "load_configuration_for_stdin", cfg):
+            ok1 = ok2 = False
+            for bi in range(len(s_.blocks)):
+                si = switch_info(s_, bi)
+                if si and si["enum"].endswith("option::Option") and \
+                        access_path(s_, si["place"])[1][-1:] == (("f", "stdin_filepath"),):
+                    sb, nb = si["targets"].get("Some"), si["targets"].get("None", si["otherwise"])
+                    for b, t in s_.calls():
+                        if callee(t).endswith("::load_configuration") and sb is not None and s_.dominates(sb, b):
+                            ap = access_path(s_, t["args"][1])
+                            ok1 = any(st == ("f", "stdin_filepath") for st in ap[1])
+                        if callee(t).endswith("::find_config_file") and nb is not None and s_.dominates(nb, b):
+                            pr = provenance(s_, t["args"][1])
+                            ok2 = any(callee(tt).endswith("to_owned") or True for _, tt in s_.calls()) and \
+                                "current_directory" in str([proj_fields(s2["rv"]["p"]) for b2, si2, s2 in s_.stmts()
+                                                            if s2["k"] == "assign" and s2["rv"]["k"] == "ref"])
+            rep.inst(f"{s_.key} stdin-filepath-or-cwd", None, cfg, ok=ok1 and ok2)
+            if not (ok1 and ok2):
+                rep.violation(f"{s_.key} stdin-config-root", "stdin does not use --stdin-filepath (when given) / the working "
+                                                             "directory (otherwise) to find its configuration", s_.loc(), cfg)
+    return rep
